@@ -73,6 +73,7 @@ const (
 	defaultEtcdStorageSize           = "10Gi"
 	defaultEtcdReplicas              = 3
 	defaultSnapshotBucketPrefix      = "kafscale-etcd"
+	maxBucketNameLength              = 63
 	defaultSnapshotPrefix            = "etcd-snapshots"
 	defaultSnapshotSchedule          = "0 * * * *"
 	defaultSnapshotImage             = "amazon/aws-cli:2.15.0"
@@ -865,6 +866,11 @@ func sanitizeBucketName(raw string) string {
 		}
 	}
 	out := strings.Trim(b.String(), "-")
+	// S3 bucket names are limited to 63 characters and must end with a letter
+	// or digit; out is ASCII-only here, so byte slicing is safe.
+	if len(out) > maxBucketNameLength {
+		out = strings.TrimRight(out[:maxBucketNameLength], "-")
+	}
 	if out == "" {
 		return defaultSnapshotBucketPrefix
 	}
